@@ -205,7 +205,7 @@ class Model:
     def apply(self, op):
         """Apply a *valid* op.  Returns the new next-available (relative)."""
         st = self.cfg["start"]
-        call = self.call
+        call = op.get("cid", self.call)
         self.call += 1
         if op["op"] == "w":
             L = op["len"]
